@@ -105,3 +105,38 @@ func clipStr(s string, n int) string {
 	}
 	return s
 }
+
+// domStrings returns what the browser shows as text: the data of every text node outside <script>/<style>, and the values
+// of the attributes that hold plain text (not URLs, not event handlers).
+func domStrings(page []byte) ([]string, error) {
+	doc, err := html.Parse(strings.NewReader(string(page)))
+	if err != nil {
+		return nil, err
+	}
+	var out []string
+	var walk func(n *html.Node, inScript bool)
+	walk = func(n *html.Node, inScript bool) {
+		switch n.Type {
+		case html.TextNode:
+			if !inScript {
+				out = append(out, n.Data)
+			}
+		case html.ElementNode:
+			for _, a := range n.Attr {
+				lk := strings.ToLower(a.Key)
+				if strings.HasPrefix(lk, "on") || lk == "href" || lk == "src" || lk == "action" || lk == "style" {
+					continue
+				}
+				out = append(out, a.Val)
+			}
+			if n.Data == "script" || n.Data == "style" {
+				inScript = true
+			}
+		}
+		for c := n.FirstChild; c != nil; c = c.NextSibling {
+			walk(c, inScript)
+		}
+	}
+	walk(doc, false)
+	return out, nil
+}
